@@ -130,6 +130,8 @@ func NewPair(prog *hast.Program, scripts []string, o PairOpts, garbage *core.Ran
 	}
 	p.R = r
 	r.Keep = true
+	// one host in two writes into the tag slices of the elements it is handed
+	r.Scribble = garbage != nil && garbage.Intn(2) == 0
 	r.Install(rfuncs, rcmds)
 	return p, nil, ""
 }
